@@ -24,16 +24,23 @@ type Shape struct {
 	KV   [][2]int // key length, value length per record
 	DT   []int64  // time of record i relative to 1s (default: i/2, non-decreasing)
 	Gap  int      // > 0: the message with this offset is deleted (through the real Delete) before the damage: offsets in a segment are increasing, not contiguous
+	Base int      // > 0: that many sealed one-message segments precede the head, whose base offset is Base
 }
 
 var Shapes07 = []Shape{
-	{"1rec", [][2]int{{1, 3}}, nil, 0},
-	{"2rec", [][2]int{{0, 0}, {1, 1}}, nil, 0},
-	{"3rec", [][2]int{{3, 40}, {0, 1}, {40, 0}}, nil, 0},
-	{"4rec", [][2]int{{1, 1}, {1, 1}, {1, 1}, {1, 1}}, nil, 0},
+	{"1rec", [][2]int{{1, 3}}, nil, 0, 0},
+	{"2rec", [][2]int{{0, 0}, {1, 1}}, nil, 0, 0},
+	{"3rec", [][2]int{{3, 40}, {0, 1}, {40, 0}}, nil, 0, 0},
+	{"4rec", [][2]int{{1, 1}, {1, 1}, {1, 1}, {1, 1}}, nil, 0, 0},
 	// times that drop and partly rise again: the index timestamp is a running maximum
-	{"3rec-nonmonotone", [][2]int{{1, 2}, {2, 1}, {1, 1}}, []int64{10, 5, 7}, 0},
-	{"4rec-gap", [][2]int{{1, 1}, {2, 2}, {1, 3}, {3, 1}}, nil, 1},
+	{"3rec-nonmonotone", [][2]int{{1, 2}, {2, 1}, {1, 1}}, []int64{10, 5, 7}, 0, 0},
+	{"4rec-gap", [][2]int{{1, 1}, {2, 2}, {1, 3}, {3, 1}}, nil, 1, 0},
+	// a head with a non-zero base offset behind two sealed segments (which must not be touched)
+	{"3rec-base2", [][2]int{{1, 1}, {0, 2}, {2, 0}}, nil, 0, 2},
+	// bodies that cross the 255/256 length boundary
+	{"3rec-long", [][2]int{{255, 1}, {0, 256}, {257, 300}}, nil, 0, 0},
+	// times before the epoch, dropping and rising through zero (the index timestamp is clamped at 0)
+	{"4rec-preepoch", [][2]int{{1, 1}, {1, 0}, {0, 1}, {2, 2}}, []int64{-1_000_010, -1_000_020, -1_000_000, -999_990}, 0, 0},
 }
 
 type Layout struct{ Times, Keys bool }
@@ -86,9 +93,18 @@ func opts(l Layout, ver int) klevdb.Options {
 // BuildHead creates a one-segment log in dir with the real writer.
 func BuildHead(dir string, sh Shape, l Layout, ver int) error {
 	vrand.Reset()
-	lg, err := klevdb.Open(dir, opts(l, ver))
+	o := opts(l, ver)
+	if sh.Base > 0 {
+		o.Rollover = 1 // every Publish call on a non-empty head starts a new segment
+	}
+	lg, err := klevdb.Open(dir, o)
 	if err != nil {
 		return err
+	}
+	for i := 0; i < sh.Base; i++ {
+		if _, err := lg.Publish([]klevdb.Message{{Time: time.UnixMicro(999_990 + int64(i)).UTC(), Key: pat(1, 40+i), Value: pat(2, 50+i)}}); err != nil {
+			return err
+		}
 	}
 	var msgs []klevdb.Message
 	for i, kv := range sh.KV {
@@ -102,7 +118,7 @@ func BuildHead(dir string, sh Shape, l Layout, ver int) error {
 		return err
 	}
 	if sh.Gap > 0 {
-		if _, _, err := lg.Delete(map[int64]struct{}{int64(sh.Gap): {}}); err != nil {
+		if _, _, err := lg.Delete(map[int64]struct{}{int64(sh.Base + sh.Gap): {}}); err != nil {
 			return err
 		}
 	}
@@ -232,8 +248,9 @@ func names(m map[string][]byte) []string {
 	return n
 }
 
-const logName = "00000000000000000000.log"
-const idxName = "00000000000000000000.index"
+func headNames(base int) (string, string) {
+	return fmt.Sprintf("%020d.log", base), fmt.Sprintf("%020d.index", base)
+}
 
 func safely(f func()) (p string) {
 	defer func() {
@@ -293,6 +310,7 @@ func Worker(raw json.RawMessage) any {
 
 // Base07 builds the base segment and returns its files and damage list.
 func Base07(dir string, t Task) (log, idx []byte, recs []refcodec.Rec, ds []Damage, err error) {
+	logName, idxName := headNames(Shapes07[t.Shape].Base)
 	_ = os.RemoveAll(dir)
 	if err = os.MkdirAll(dir, 0o700); err != nil {
 		return
@@ -324,6 +342,23 @@ func run07(t Task) Result {
 	}
 	l := Layouts[t.Layout]
 	o := opts(l, t.Ver)
+	baseOff := Shapes07[t.Shape].Base
+	logName, idxName := headNames(baseOff)
+	// the sealed segments in front of the head (none for base offset 0)
+	pre := readFiles(base)
+	delete(pre, logName)
+	delete(pre, idxName)
+	put := func(dir string, dlog, didx []byte, noIdx bool) {
+		_ = os.RemoveAll(dir)
+		_ = os.MkdirAll(dir, 0o700)
+		for n, b := range pre {
+			_ = os.WriteFile(filepath.Join(dir, n), b, 0o600)
+		}
+		_ = os.WriteFile(filepath.Join(dir, logName), dlog, 0o600)
+		if !noIdx {
+			_ = os.WriteFile(filepath.Join(dir, idxName), didx, 0o600)
+		}
+	}
 	refIdx := func(k int) [][]byte {
 		return [][]byte{refcodec.DeriveIndex(1, l.Times, l.Keys, recs[:k]), refcodec.DeriveIndex(2, l.Times, l.Keys, recs[:k])}
 	}
@@ -355,12 +390,7 @@ func run07(t Task) Result {
 		for mode := 0; mode < 2; mode++ { // 0: klevdb.Recover, 1: Open(Recover)+Close
 			res.Cases++
 			dir := filepath.Join(scratch(), "d07")
-			_ = os.RemoveAll(dir)
-			_ = os.MkdirAll(dir, 0o700)
-			_ = os.WriteFile(filepath.Join(dir, logName), dlog, 0o600)
-			if !d.NoIdx {
-				_ = os.WriteFile(filepath.Join(dir, idxName), didx, 0o600)
-			}
+			put(dir, dlog, didx, d.NoIdx)
 			fail := func(sig, format string, a ...any) {
 				res.Problems = append(res.Problems, Problem{Sig: sig, Msg: fmt.Sprintf(format, a...), Damage: fmt.Sprintf("%s [shape %s layout %+v v%d, via %s]", d.Desc, Shapes07[t.Shape].Name, l, t.Ver, []string{"klevdb.Recover", "Open(Recover)"}[mode])})
 			}
@@ -389,12 +419,7 @@ func run07(t Task) Result {
 				fail(fmt.Sprintf("Open(Check) verdict (want ok=%v)", wantCheck), "Open(Check) = %v, reference verdict ok=%v", oerr, wantCheck)
 			}
 			// Open(Check) may have rebuilt a missing/short index: restore the damaged files
-			_ = os.RemoveAll(dir)
-			_ = os.MkdirAll(dir, 0o700)
-			_ = os.WriteFile(filepath.Join(dir, logName), dlog, 0o600)
-			if !d.NoIdx {
-				_ = os.WriteFile(filepath.Join(dir, idxName), didx, 0o600)
-			}
+			put(dir, dlog, didx, d.NoIdx)
 			before := readFiles(dir)
 			// recover
 			var rerr error
@@ -434,9 +459,18 @@ func run07(t Task) Result {
 					fail("Open(Recover): index does not match the log", "after Open(Recover)+Close the index (%d bytes) is not the index of the %d valid records", len(ib), k)
 				}
 			}
-			for n := range after {
-				if n != logName && n != idxName {
+			for n, b := range after {
+				if _, sealed := pre[n]; sealed {
+					if !bytes.Equal(b, pre[n]) {
+						fail("Recover: sealed segment changed", "Recover changed %s, a file of a sealed segment in front of the head", n)
+					}
+				} else if n != logName && n != idxName {
 					fail("Recover: temp file left", "after Recover file %s remains", n)
+				}
+			}
+			for n := range pre {
+				if _, ok := after[n]; !ok {
+					fail("Recover: sealed segment changed", "Recover removed %s, a file of a sealed segment in front of the head", n)
 				}
 			}
 			if undamaged || (d.Log == nil && isRef(didx, k) && !d.NoIdx) {
@@ -475,8 +509,11 @@ func run07(t Task) Result {
 					}
 					off = next
 				}
-				if perr == nil && len(got) != k+1 {
-					perr = fmt.Errorf("scan after append returned %d messages, want %d", len(got), k+1)
+				if perr == nil && len(got) != baseOff+k+1 {
+					perr = fmt.Errorf("scan after append returned %d messages, want %d", len(got), baseOff+k+1)
+				}
+				if perr == nil {
+					got = got[baseOff:]
 				}
 				for i := 0; perr == nil && i < k; i++ {
 					if got[i].Offset != vrecs[i].Off || !bytes.Equal(got[i].Key, vrecs[i].Key) || !bytes.Equal(got[i].Value, vrecs[i].Val) {
